@@ -61,3 +61,40 @@ func leanBatch(driver string, lines []string) ([]string, error) {
 	}
 	return out, nil
 }
+
+// leanParallel splits the lines over n driver processes (order preserved).
+func leanParallel(driver string, lines []string, n int) ([]string, error) {
+	if len(lines) < 2000 || n <= 1 {
+		return leanBatch(driver, lines)
+	}
+	chunk := (len(lines) + n - 1) / n
+	outs := make([][]string, n)
+	errs := make([]error, n)
+	done := make(chan int, n)
+	k := 0
+	for i := 0; i < n; i++ {
+		lo, hi := i*chunk, (i+1)*chunk
+		if lo >= len(lines) {
+			break
+		}
+		if hi > len(lines) {
+			hi = len(lines)
+		}
+		k++
+		go func(i, lo, hi int) {
+			outs[i], errs[i] = leanBatch(driver, lines[lo:hi])
+			done <- i
+		}(i, lo, hi)
+	}
+	for j := 0; j < k; j++ {
+		<-done
+	}
+	var out []string
+	for i := 0; i < n; i++ {
+		if errs[i] != nil {
+			return nil, errs[i]
+		}
+		out = append(out, outs[i]...)
+	}
+	return out, nil
+}
